@@ -53,6 +53,7 @@ func checkC10(c *Ctx) {
 	c.Clause("the address given to IsAllowed derives from r.RemoteAddr only, never from request headers")
 	c.Clause("with IP lists configured NewMux returns the filter middleware, and on a list parse error a handler through which the mux is not reachable")
 	c.Clause("the not-allowed edge writes 403 and never reaches next")
+	c.Clause("a single-address list entry becomes the exact network of the parsed address (/32 of its 4-byte form, else /128), never a network parsed from the entry's text plus a suffix; every parsed entry lands in the list that is consulted")
 	c.NotDecided("CIDR arithmetic of net.IPNet.Contains; IPv4-mapped address forms; JSON bodies of the endpoints")
 
 	nm := p.Fn("internal/adminapi", "", "NewMux")
@@ -576,6 +577,7 @@ func checkC11(c *Ctx) {
 	c.Clause("a registered backend forwards to the address of its own registration: its URL is this call's parsed address and its ReverseProxy is built from that URL in this call, on every path (nothing remembered from an earlier registration of the name)")
 	c.Clause("a Backend's identity and forwarding machinery (Name, URL, ReverseProxy, Weight) are never stored after the backend was published: a request that picked it just before a removal is still served through it")
 	c.Clause("the balancer and strategy locks are never re-acquired while held (a recursive read lock deadlocks as soon as an admin write queues between the two acquisitions) and are acquired in a consistent order")
+	c.Clause("RemoveBackend looks the name up and removes it in one write-locked critical section; AddBackend accepts only an http(s) URL with a host (anything else is an error before any state changes)")
 	c.NotDecided("linearizability of concurrent histories beyond mutual exclusion; that in-flight requests complete")
 
 	lockOrder(c, "LoadBalancer.mutex", "Strategy.mutex", "Strategy.mu")
